@@ -104,7 +104,7 @@ def subtree_specs(forest):
 
 def shards(tier, seed):
     n = 32 if tier == 'quick' else 96
-    return [('main', tier, i, n) for i in range(n)] + [('args', tier, i, 8) for i in range(8)] + [('xmlns', tier, 0, 1)]
+    return [('main', tier, i, n) for i in range(n)] + [('args', tier, i, 8) for i in range(8)] + [('xmlns', tier, 0, 1), ('amp', tier, 0, 1)]
 
 
 def ids(xs):
@@ -383,11 +383,53 @@ def run_xmlns(sv, res):
     return res
 
 
+AMP_PAIRS = [(':scope', '&'), (':scope > x|e', '& > x|e'), (':scope > *|*', '& > *|*'), (':is(:scope)', ':is(&)'), ('x|e:scope', 'x|e&'), ('*|*:scope *|f', '*|*& *|f'),
+             (':not(:scope)', ':not(&)'), (':scope ~ *|e', '& ~ *|e'), (':has(> :scope)', ':has(> &)'), ('*|*:not(:scope) > x|f', '*|*:not(&) > x|f')]
+AMP_MAPS = [None, {'x': 'urn:a'}, {'': 'urn:a', 'x': 'urn:a'}, {'': 'urn:zz', 'x': 'urn:a'}, {'': 'urn:b', 'x': 'urn:b'}]
+
+
+def run_amp(sv, res):
+    """'&' denotes exactly what ':scope' denotes: every entry point, every element as call target, with and without a default namespace."""
+    import bs4
+    import warnings
+    with warnings.catch_warnings():
+        warnings.simplefilter('ignore')
+        docs = [('xml', bs4.BeautifulSoup(XML_DOC, 'xml')), ('html', bs4.BeautifulSoup('<div><e id="1"><e id="2"></e><f></f></e><e id="3"></e><svg><e id="4"></e></svg></div>', 'html5lib'))]
+    for dname, soup in docs:
+        els = T.elements(soup)
+        idx = {id(e): k for k, e in enumerate(els)}
+        for a, b in AMP_PAIRS:
+            for m in AMP_MAPS:
+                for target in [soup] + els:
+                    for entry in ('select', 'match', 'closest', 'filter', 'select_one'):
+                        if entry in ('match', 'closest') and target is soup:
+                            continue
+                        outs = []
+                        for text in (a, b):
+                            try:
+                                r = getattr(sv, entry)(text, target, namespaces=m)
+                                outs.append([idx.get(id(x)) for x in r] if isinstance(r, list) else (idx.get(id(r)) if r is not None and not isinstance(r, bool) else r))
+                            except Exception as e:
+                                outs.append('raise:' + type(e).__name__)
+                        res.evaluations += 1
+                        if outs[0] != outs[1]:
+                            res.fail({'layer': 'amp', 'doc': dname, 'pair': [a, b], 'map': m, 'entry': entry, 'target': idx.get(id(target), -1)},
+                                     {'entry': entry, 'what': 'amp-vs-scope', 'default_ns': bool(m) and '' in m},
+                                     f'[{dname}] {entry}({a!r}) = {outs[0]} but {entry}({b!r}) = {outs[1]} (namespaces={m!r}, target #{idx.get(id(target), -1)})')
+                        else:
+                            res.outcome('amp-equals-scope')
+                            if outs[0] not in (None, False, []):
+                                res.nontrivial += 1
+    return res
+
+
 def run_shard(desc):
     from .. import common
     sv = common.bind()
     layer, tier, i, n = desc
     res = shard.Result()
+    if layer == 'amp':
+        return run_amp(sv, res)
     if layer == 'xmlns':
         return run_xmlns(sv, res)
     if layer == 'args':
@@ -432,6 +474,13 @@ def run_shard(desc):
 def replay(case):
     from .. import common
     sv = common.bind()
+    if case['layer'] == 'amp':
+        r = shard.Result()
+        run_amp(sv, r)
+        for f_ in r.failures:
+            if f_['case']['pair'] == case['pair'] and f_['case']['entry'] == case['entry']:
+                return f_['sig'], f_['detail']
+        return (r.failures[0]['sig'], r.failures[0]['detail']) if r.failures else None
     if case['layer'] == 'xmlns':
         r = shard.Result()
         run_xmlns(sv, r)
